@@ -268,8 +268,8 @@ class History:
                     self.stats["cuts_effective"] += 1
                 for i in removed:
                     del m.e[i]
-                # right after the cut nothing at or above k may be readable
-                rr = s.call("read", lo=kcut, hi=kcut + 1000000)
+                # right after the cut nothing at or above k may be readable (not probed in sparsely observed histories)
+                rr = s.call("read", lo=kcut, hi=kcut + 1000000) if self.check_every else {}
                 if rr.get("ok") and rr["entries"]:
                     return {"symptom": "suffix-still-readable", "where": "op@%d" % k, "detail": {"k": kcut, "returned": len(rr["entries"]), "first": rr["entries"][0][:5]}}
             elif name in ("pointer_build", "pointer_install"):
@@ -494,7 +494,7 @@ def classify(ops, viol):
     return "%s/%s" % (viol["symptom"], "+".join(feats))
 
 
-def shrink(wd, ops, viol, budget_s=60, preload=None):
+def shrink(wd, ops, viol, budget_s=60, preload=None, check_every=True):
     """ddmin on the op list, re-running the real code; keeps the symptom fixed"""
     t0 = time.time()
     sym = viol["symptom"]
@@ -511,7 +511,7 @@ def shrink(wd, ops, viol, budget_s=60, preload=None):
             if cand[-1]["op"] != "reopen" and curv.get("after_reopen"):
                 cand = cand + [{"op": "reopen"}]
             try:
-                v = History(wd, cand).run()
+                v = History(wd, cand, check_every=check_every).run()
             except SessionDied:
                 v = None
             runs += 1
